@@ -1,16 +1,66 @@
-"""C02 — quantum-number block sparsity is an invariant of every operation history."""
+"""C02 — quantum-number block sparsity is an invariant of every operation history.
+
+Stage C (implementation level): seeded random histories on the real code, an independent is_qsparse + length test on every
+pool object after every step, total charge of non-zero states kept by orthonormalize / compress / TDVP / DMRG.
+Stage B (correspondence with Model/History.v):
+  * 'ring' cases — histories of ring operations (constructors, add_mps with alpha, +, -, @, apply_operator, MPO.identity, also
+    with operands that make the assertions fail) on integer-valued tensors: the state machine [step_opt] is run at Z[i] inside
+    Coq; at every step the object it writes must equal the implementation's exactly (qd, every qD, every tensor entry) and
+    satisfy the invariant evaluated in Coq; exceptions must coincide with [None]; the final pools must be equal (form E).
+  * 'hist' cases — LAPACK-dependent histories are compared at the level of the invariant: the sparsity pattern (charges, shapes,
+    1 where the entry is non-zero) of every pool object after every step is shipped to Coq and [mps_ok] / [mpo_ok] is evaluated
+    on it over the integers; the boundary charges before / after total-charge-keeping steps are compared with [boundary_eqb].
+"""
+import hashlib
 import numpy as np
 import gen as G
+import emit as E
 
 PROP = 'C02'
-COQ_IMPORTS = ['PT.Base.Scalar']
-FORM = 'see coq(): per-step replay where the model is available'
+COQ_IMPORTS = ['PT.Base.Scalar', 'PT.Base.BigSum', 'PT.Base.Mx', 'PT.Model.Tensor', 'PT.Model.MPSOps', 'PT.Model.History']
+COQ_PREAMBLE = '''
+Definition gmx := @mkmx GIring.
+Definition gmps := @mkmps GIring.
+Definition gmpo := @mkmpo GIring.
+Definition zmx := @mkmx Zring.
+Definition zmps := @mkmps Zring.
+Definition zmpo := @mkmpo Zring.
+Definition Gstate := @mkstate GIring.
+Definition Gcheck := @check_history GIring (no_oracles GIring).
+Definition GNewMps := @NewMps GIring.   Definition GNewMpo := @NewMpo GIring.
+Definition GAddMps := @AddMps GIring.   Definition GSubMps := @SubMps GIring.
+Definition GAddMpo := @AddMpo GIring.   Definition GSubMpo := @SubMpo GIring.
+Definition GMulMpo := @MulMpo GIring.   Definition GApply := @Apply GIring.
+Definition GIdentity := @Identity GIring.
+Definition GOutMps := @OutMps GIring.   Definition GOutMpo := @OutMpo GIring.   Definition GOutErr := @OutErr GIring.
+Definition gi (a b : Z) : GIring := (a, b).
+'''
+FORM = ('E for ring operations (whole histories replayed by the state machine of Model/History.v at Z[i], every written object '
+        'compared exactly and the invariant evaluated in Coq) + invariant evaluated in Coq on the sparsity pattern of every pool '
+        'object after every step of the LAPACK-dependent histories')
 RULE = ('seeded random histories (3..12 steps quick, up to 40 thorough) over a pool of MPS/MPO sharing physical charges '
         '(U(1) charges of XXZ / Bose-Hubbard, encoded pairs of Fermi-Hubbard, random charges, all-zero), operations: constructors, '
         'orthonormalize, compress, +, -, @, apply_operator, from_opgraph/Hamiltonian constructors, split/merge, from_vector, '
         'TDVP single/two-site, DMRG single/two-site; after EVERY step all pool objects are checked by an independent is_qsparse and '
-        'length test; non-trivial = history contains >= 3 distinct operation kinds; distinct by (model, seed)')
+        'length test; non-trivial = history contains >= 3 distinct operation kinds; distinct by (model, seed).  Ring cases: '
+        'integer-valued pools (L 1..4, d 2..3, charge classes zero/sorted/unsorted/repeated/big, a third state in another charge '
+        'sector so that assertions fail), 4..8 ring operations with Gaussian-integer alpha / scale / fill')
+TRUSTED = ['hand-written Gallina state machine Model/History.v on top of Model/MPSOps.v, Model/GraphMPO.v (ring operations) — tied '
+           'to /repo by the exact replay of ring histories; oracles stand for the LAPACK-dependent operations',
+           'python emitters harness/emit.py and the pattern extraction in harness/props/c02.py (entry != 0 -> 1)']
+PARTIAL = ('proved (Properties/C02.v, every commutative ring with conjugation, all L, d, bond profiles, charges): the invariant is '
+           'preserved by add_mps, add_mpo, multiply_mpo, apply_operator (and their sparsity assertions can never fire on operands '
+           'satisfying it), established by MPO.identity, the MPS/MPO constructors, MPO.from_opgraph, MPS.from_vector (given chained '
+           'shapes), kept by merge + split under C12\'s contract (valid input proved), hence by every history of ring operations with '
+           'no hypothesis and by every history relative to the stated oracle contracts (history_inv_partial); Orth / OrthMpo(left) '
+           'contracts derived from the C01 model, the split contract from the C12 model; boundary charges: sums copy, products take '
+           'outer sums, merge+split keeps, orthonormalize keeps both for a non-zero state.  NOT proved, validated per run: sparsity and '
+           'total charge for compress, TDVP, DMRG, MPO.orthonormalize(right); from_vector\'s shapes; the Hamiltonian constructors up to '
+           'from_opgraph (C05-C07)')
+ASSUMPTIONS = ['float64 arithmetic on integers below 2^50 is exact (ring histories stop before entries exceed it)',
+               'oracle contracts as listed in Properties/C02.v (C12 for split_matrix_svd, LAPACK QR contract for orthonormalize)']
 IMPL_PARALLEL = True
+SHARD = 12
 
 OPS = ['orth_l', 'orth_r', 'compress_l', 'compress_r', 'add', 'sub', 'apply', 'mpo_add', 'mpo_sub', 'mpo_mul', 'mpo_orth',
        'split_merge', 'split_merge', 'from_vector', 'tdvp1', 'tdvp2', 'dmrg1', 'dmrg2', 'new_state', 'new_zero_state', 'zero_split_sweep', 'split_sweep', 'zero_op']
@@ -24,7 +74,143 @@ def cases(rng, tier):
         out.append({'seed': rng.getrandbits(30), 'model': rng.choice(['xxz', 'xxz', 'bose', 'fermi', 'random', 'zero', 'ising']),
                     'L': rng.choice([2, 2, 3, 3, 4]), 'ops': [rng.choice(OPS) for _ in range(steps)],
                     'tol': rng.choice([0.0, 1e-10, 0.01, 0.1])})
+    nr = {'quick': 300, 'thorough': 1500, 'search': 300}[tier]
+    for k in range(nr):
+        out.append({'kind': 'ring', 'seed': rng.getrandbits(30), 'L': rng.choice([1, 2, 2, 3, 3, 4]), 'd': rng.choice([2, 2, 3]),
+                    'qclass': rng.choice(['unsorted', 'unsorted', 'sorted', 'zero', 'repeated', 'big']),
+                    'ops': [rng.choice(RING_OPS) for _ in range(rng.randint(4, 8))]})
     return out
+
+
+RING_OPS = ['add', 'add', 'sub', 'apply', 'apply', 'mpo_add', 'mpo_sub', 'mpo_mul', 'identity', 'new_state', 'new_op', 'add_other_sector']
+PATTERN_CAP = 30000      # entries of one object above which its pattern is not shipped to Coq (stage C still checks it)
+INT_CAP = float(2 ** 50)
+
+
+def _ser(obj):
+    """MPS / MPO with integer-valued entries -> JSON (real and imaginary parts as nested int lists)"""
+    return {'qd': [int(x) for x in obj.qd], 'qD': [[int(x) for x in q] for q in obj.qD],
+            'Ar': [np.real(a).astype(np.int64).tolist() for a in obj.A], 'Ai': [np.imag(a).astype(np.int64).tolist() for a in obj.A]}
+
+
+def _pattern(kind, obj):
+    return {'kind': kind, 'qd': [int(x) for x in obj.qd], 'qD': [[int(x) for x in np.asarray(q).reshape(-1)] for q in obj.qD],
+            'M': [(np.asarray(a) != 0).astype(int).tolist() for a in obj.A], 'shapes': [list(np.asarray(a).shape) for a in obj.A]}
+
+
+def _intvalued(obj):
+    for a in obj.A:
+        a = np.asarray(a)
+        if not (np.all(np.real(a) == np.round(np.real(a))) and np.all(np.imag(a) == np.round(np.imag(a)))):
+            return False
+        if a.size and max(np.max(np.abs(np.real(a))), np.max(np.abs(np.imag(a)))) >= INT_CAP:
+            return False
+    return True
+
+
+def impl_ring(case):
+    import warnings
+    warnings.simplefilter('ignore')
+    import pytenet as ptn
+    from pytenet.mps import add_mps
+    from pytenet.mpo import add_mpo
+    rs = np.random.default_rng(case['seed'])
+    L, d, qc = case['L'], case['d'], case['qclass']
+    qd = np.zeros(d, dtype=int) if qc == 'zero' else rs.integers(-1, 2, size=d)
+    word = rs.integers(0, d, size=L)
+    qtot = int(np.sum(qd[word]))
+
+    def rstate(qt):
+        return G.rand_mps(rs, L, d, qclass=qc, Dmax=2, dtype='complex', entries='int', qd=qd.copy(), q_total=qt)
+
+    def rop():
+        return G.rand_mpo(rs, L, d, qclass=qc if np.any(qd) else 'zero', Dmax=2, dtype='complex', entries='int', qd=qd.copy())
+    states = [rstate(qtot), rstate(qtot), rstate(qtot + 1)]
+    ops = [rop(), rop()]
+    init = {'states': [_ser(x) for x in states], 'ops': [_ser(x) for x in ops]}
+    steps, viol, trace = [], [], []
+
+    def gint():
+        return complex(int(rs.integers(-2, 3)), int(rs.integers(-2, 3)))
+    for step, name in enumerate(case['ops']):
+        i = int(rs.integers(0, 2)); j = int(rs.integers(0, 2))
+        a = int(rs.integers(0, len(ops))); b = int(rs.integers(0, len(ops)))
+        sdst = int(rs.integers(0, min(len(states) + 1, 5))); odst = int(rs.integers(0, min(len(ops) + 1, 4)))
+        alpha = gint(); fill = gint()
+        rec = None
+        try:
+            if name in ('add', 'sub', 'add_other_sector'):
+                if name == 'add_other_sector':
+                    j = 2 if rs.random() < 0.7 else int(rs.integers(0, len(states)))
+                    i = int(rs.integers(0, len(states)))
+                if max(x + y for x, y in zip(states[i].bond_dims, states[j].bond_dims)) > 24:
+                    continue
+                if name == 'sub':
+                    rec = {'op': 'SubMps', 'args': [sdst, i, j]}
+                    res = states[i] - states[j]
+                else:
+                    rec = {'op': 'AddMps', 'args': [sdst, i, j], 'alpha': [alpha.real, alpha.imag]}
+                    res = add_mps(states[i], states[j], alpha=alpha) if alpha != 1 else states[i] + states[j]
+                kind = 'mps'
+            elif name == 'apply':
+                i = int(rs.integers(0, len(states)))
+                if max(x * y for x, y in zip(ops[a].bond_dims, states[i].bond_dims)) > 24:
+                    continue
+                rec = {'op': 'Apply', 'args': [sdst, a, i]}
+                res = ptn.apply_operator(ops[a], states[i]); kind = 'mps'
+            elif name in ('mpo_add', 'mpo_sub'):
+                if max(x + y for x, y in zip(ops[a].bond_dims, ops[b].bond_dims)) > 8:
+                    continue
+                if name == 'mpo_sub':
+                    rec = {'op': 'SubMpo', 'args': [odst, a, b]}
+                    res = ops[a] - ops[b]
+                else:
+                    rec = {'op': 'AddMpo', 'args': [odst, a, b], 'alpha': [alpha.real, alpha.imag]}
+                    res = add_mpo(ops[a], ops[b], alpha=alpha)
+                kind = 'mpo'
+            elif name == 'mpo_mul':
+                if max(x * y for x, y in zip(ops[a].bond_dims, ops[b].bond_dims)) > 8:
+                    continue
+                rec = {'op': 'MulMpo', 'args': [odst, a, b]}
+                res = ops[a] @ ops[b]; kind = 'mpo'
+            elif name == 'identity':
+                rec = {'op': 'Identity', 'args': [odst], 'qd': [int(x) for x in qd], 'L': L, 'scale': [fill.real, fill.imag]}
+                res = ptn.MPO.identity(qd, L, scale=fill); kind = 'mpo'
+            elif name == 'new_state':
+                t = states[int(rs.integers(0, len(states)))]
+                rec = {'op': 'NewMps', 'args': [sdst], 'qd': [int(x) for x in qd], 'qD': [[int(x) for x in q] for q in t.qD],
+                       'fill': [fill.real, fill.imag]}
+                res = ptn.MPS(qd, [q.copy() for q in t.qD], fill=fill); kind = 'mps'
+            elif name == 'new_op':
+                t = ops[int(rs.integers(0, len(ops)))]
+                rec = {'op': 'NewMpo', 'args': [odst], 'qd': [int(x) for x in qd], 'qD': [[int(x) for x in q] for q in t.qD],
+                       'fill': [fill.real, fill.imag]}
+                res = ptn.MPO(qd, [q.copy() for q in t.qD], fill=fill); kind = 'mpo'
+            else:
+                continue
+        except AssertionError:
+            rec['out'] = 'err'
+            steps.append(rec); trace.append(name + '(assert)')
+            continue
+        except Exception as e:
+            viol.append('step %d (%s) raised %s: %s' % (step, name, type(e).__name__, str(e)[:160]))
+            break
+        if not _intvalued(res):
+            break
+        rec['out'] = kind
+        rec['res'] = _ser(res)
+        steps.append(rec); trace.append(name)
+        pool, dst = (states, sdst) if kind == 'mps' else (ops, odst)
+        if dst < len(pool):
+            pool[dst] = res
+        else:
+            pool.append(res)
+        m = G.mps_sparsity_ok(res) if kind == 'mps' else G.mpo_sparsity_ok(res)
+        if m:
+            viol.append('after step %d (%s): result: %s' % (step, name, m))
+            break
+    final = {'states': [_ser(x) for x in states], 'ops': [_ser(x) for x in ops]}
+    return {'trace': trace, 'violations': viol, 'init': init, 'steps': steps, 'final': final}
 
 
 def _hamiltonian(case, rs, qd=None):
@@ -51,6 +237,8 @@ def _state(rs, H, Dmax=3, qclass='unsorted'):
 
 
 def impl(case):
+    if case.get('kind') == 'ring':
+        return impl_ring(case)
     import warnings
     warnings.simplefilter('ignore')
     import pytenet as ptn
@@ -65,6 +253,25 @@ def impl(case):
     ops = [H, G.rand_mpo(rs, L, d, qclass='unsorted' if np.any(H.qd) else 'zero', Dmax=2, qd=np.array(H.qd))]
     trace = []
     viol = []
+    patterns = []
+    totals = []
+    seen = set()
+    skipped_patterns = [0]
+
+    def record():
+        for kind, pool in (('mps', states), ('mpo', ops)):
+            for o in pool:
+                if sum(int(np.asarray(a).size) for a in o.A) > PATTERN_CAP:
+                    skipped_patterns[0] += 1
+                    continue
+                try:
+                    pt = _pattern(kind, o)
+                except Exception:
+                    continue       # malformed object: reported by check()
+                h = hashlib.sha1(repr(pt).encode()).hexdigest()
+                if h not in seen:
+                    seen.add(h)
+                    patterns.append(pt)
 
     def check(step, name):
         for k, s in enumerate(states):
@@ -76,6 +283,7 @@ def impl(case):
             if m:
                 viol.append('after step %d (%s): operator %d: %s' % (step, name, k, m))
     check(-1, 'init')
+    record()
     for step, name in enumerate(case['ops']):
         i = int(rs.integers(0, len(states))); j = int(rs.integers(0, len(states)))
         a = int(rs.integers(0, len(ops))); b = int(rs.integers(0, len(ops)))
@@ -168,6 +376,8 @@ def impl(case):
                 # a freshly built MPO from a constructor (graph-to-MPO conversion)
                 ops[1] = _hamiltonian(case, rs, qd=np.array(H.qd))
             if keep_total and nonzero and not name.endswith('(skipped)'):
+                totals.append([[int(x) for x in qt[0]], [int(x) for x in qt[1]],
+                               [int(x) for x in np.asarray(psi.qD[0]).reshape(-1)], [int(x) for x in np.asarray(psi.qD[-1]).reshape(-1)]])
                 if not (np.array_equal(psi.qD[0], qt[0]) and np.array_equal(psi.qD[-1], qt[1])):
                     viol.append('after step %d (%s): total bond quantum numbers of a non-zero state changed %s/%s -> %s/%s' % (
                         step, name, qt[0], qt[1], psi.qD[0], psi.qD[-1]))
@@ -175,12 +385,13 @@ def impl(case):
             import traceback
             tb = traceback.extract_tb(e.__traceback__)[-1]
             return {'error': type(e).__name__, 'at': 'step %d (%s)' % (step, name), 'detail': ('%s [%s:%d]' % (str(e)[:160], tb.filename.split('/')[-1], tb.lineno)),
-                    'trace': trace + [name], 'violations': viol}
+                    'trace': trace + [name], 'violations': viol, 'patterns': patterns, 'totals': totals}
         trace.append(name)
         check(step, name)
+        record()
         if viol:
             break
-    return {'trace': trace, 'violations': viol}
+    return {'trace': trace, 'violations': viol, 'patterns': patterns, 'totals': totals, 'patterns_skipped': skipped_patterns[0]}
 
 
 def prop(case, r):
@@ -190,11 +401,83 @@ def prop(case, r):
     return msgs
 
 
+class _Obj:
+    pass
+
+
+def _unser(o):
+    x = _Obj()
+    x.qd = o['qd']; x.qD = o['qD']
+    x.A = [np.asarray(ar, dtype=float) + 1j * np.asarray(ai, dtype=float) for ar, ai in zip(o['Ar'], o['Ai'])]
+    return x
+
+
+def _gmps(o):
+    return E.mps(_unser(o)).replace('mkmx', 'gmx').replace('mkmps', 'gmps')
+
+
+def _gmpo(o):
+    return E.mpo(_unser(o)).replace('mkmx', 'gmx').replace('mkmpo', 'gmpo')
+
+
+def _zmx(a):
+    a = np.asarray(a)
+    return '(zmx %s %s %s)' % (E.nat(a.shape[0]), E.nat(a.shape[1]), E.lst([E.lst([E.z(x) for x in row]) for row in a]))
+
+
+def _zpattern(pt):
+    x = _Obj()
+    x.qd = pt['qd']; x.qD = pt['qD']; x.A = [np.asarray(m, dtype=int).reshape(sh) for m, sh in zip(pt['M'], pt['shapes'])]
+    if pt['kind'] == 'mps':
+        return 'pattern_mps_ok ' + E.mps(x, _zmx).replace('mkmps', 'zmps')
+    return 'pattern_mpo_ok ' + E.mpo(x, _zmx).replace('mkmpo', 'zmpo')
+
+
+def _gi(c):
+    return '(gi %s %s)' % (E.z(c[0]), E.z(c[1]))
+
+
+def _coq_op(rec):
+    a = rec['args']
+    n = ' '.join(E.nat(x) for x in a)
+    op = rec['op']
+    if op in ('AddMps', 'AddMpo'):
+        return '(G%s %s %s)' % (op, n, _gi(rec['alpha']))
+    if op in ('SubMps', 'SubMpo', 'MulMpo', 'Apply'):
+        return '(G%s %s)' % (op, n)
+    if op == 'Identity':
+        return '(GIdentity %s %s %s %s)' % (n, E.zlist(rec['qd']), E.nat(rec['L']), _gi(rec['scale']))
+    if op == 'NewMps':
+        return '(GNewMps %s %s %s (fun _ _ _ _ => %s))' % (n, E.zlist(rec['qd']), E.lst([E.zlist(q) for q in rec['qD']]), _gi(rec['fill']))
+    if op == 'NewMpo':
+        return '(GNewMpo %s %s %s (fun _ _ _ _ _ => %s))' % (n, E.zlist(rec['qd']), E.lst([E.zlist(q) for q in rec['qD']]), _gi(rec['fill']))
+    raise ValueError(op)
+
+
+def _coq_pool(pl):
+    return '(Gstate %s %s)' % (E.lst([_gmps(x) for x in pl['states']]), E.lst([_gmpo(x) for x in pl['ops']]))
+
+
 def coq(case, r):
-    return None
+    if case.get('kind') == 'ring':
+        if 'init' not in r:
+            return None
+        steps = []
+        for rec in r['steps']:
+            out = 'GOutErr' if rec['out'] == 'err' else ('(GOutMps %s)' % _gmps(rec['res']) if rec['out'] == 'mps' else '(GOutMpo %s)' % _gmpo(rec['res']))
+            steps.append('(%s, %s)' % (_coq_op(rec), out))
+        return 'Gcheck %s %s %s' % (_coq_pool(r['init']), E.lst(steps), _coq_pool(r['final']))
+    terms = ['(%s)' % _zpattern(pt) for pt in r.get('patterns', [])]
+    terms += ['(boundary_eqb %s %s)' % (E.lst([E.zlist(t[0]), E.zlist(t[1])]), E.lst([E.zlist(t[2]), E.zlist(t[3])])) for t in r.get('totals', [])]
+    if not terms:
+        return None
+    return ' && '.join(terms)
 
 
 def klass(case, r):
+    if case.get('kind') == 'ring':
+        errs = sum(1 for x in r.get('steps', []) if x['out'] == 'err')
+        return 'ring/L%d/d%d/%s/%dsteps/%derr' % (case['L'], case['d'], case['qclass'], len(r.get('steps', [])), errs)
     if 'error' in r:
         return case['model'] + '/error'
     kinds = sorted({t.split('(')[0].rstrip('_lr12') for t in r['trace'] if not t.endswith('(skipped)')})
@@ -202,4 +485,6 @@ def klass(case, r):
 
 
 def nontrivial(case, r):
+    if case.get('kind') == 'ring':
+        return len([x for x in r.get('steps', []) if x['out'] != 'err']) >= 3
     return 'error' not in r and len({t for t in r['trace'] if not t.endswith('(skipped)')}) >= 3
